@@ -33,7 +33,7 @@ REAL = ["localcider.backend.seqfileparser.SequenceFileParser (parseSeqFile, __va
         "file branches of SequenceParameters.__init__ and SequencePermutants.__init__",
         "CPython io.TextIOWrapper / io.BufferedReader (decoding, universal newlines, buffering)"]
 STUBBED = ["the raw device under seqfileparser.open (SimFS.SimRaw): chunking, EIO, open errors, torn files"]
-ASSUMPTIONS = ["not generated because the statement is silent: tabs / other non-space whitespace, BOMs, lone CR, non-ASCII digits, "
+ASSUMPTIONS = ["non-space whitespace strictly inside a sequence line (TAB, NBSP, U+3000) counts as a foreign character; not generated because the statement is silent: non-space whitespace at the ends of a line, characters some splitters treat as line boundaries (VT, FF, FS-US, NEL, U+2028/9), BOMs, lone CR, non-ASCII digits, "
                "files reducing to an empty sequence, a first header appearing after sequence lines (the reference refuses to judge these: DISCARDED)",
                "lower-case letters count as foreign characters (they are today)",
                "open handles after a call are counted as a probe, not a verdict (the statement does not mention handles)"]
@@ -46,6 +46,7 @@ FOREIGN_LETTERS = "BJOUXZ"
 LOWER = "acdefghiklmnpqrstvwybjouxz"
 PUNCT = "-.,;:_#/\\(?!@$%&+=|~'\")[]{}<^`"
 CONTROL = "\x00\x01\x02\x07\x08\x1b\x7f"
+INNER_WS = "\t\t\xa0\u3000\u2003"
 PATH = "/sim/seq.fasta"
 
 
@@ -178,9 +179,19 @@ def corrupt(rnd, text, meta):
         pre = text[:i].encode("utf-8")
         post = text[i:].encode("utf-8")
         return pre + bad + post
-    pool = rnd.choice((FOREIGN_LETTERS, LOWER, PUNCT, CONTROL, "éßα中"))
+    pool = rnd.choice((FOREIGN_LETTERS, LOWER, PUNCT, CONTROL, "éßα中", INNER_WS))
     ch = rnd.choice(pool)
-    meta["foreign_class"] = {FOREIGN_LETTERS: "letter", LOWER: "lower", PUNCT: "punct", CONTROL: "control"}.get(pool, "unicode")
+    meta["foreign_class"] = {FOREIGN_LETTERS: "letter", LOWER: "lower", PUNCT: "punct", CONTROL: "control", INNER_WS: "inner_ws"}.get(pool, "unicode")
+    if pool == INNER_WS:
+        # strictly inside the line: between two non-blank characters
+        inner = [j for j in range(a + first + 1, a + len(line.rstrip(" "))) if text[j] != " " and text[j - 1] != " "]
+        if not inner:
+            pool, ch = PUNCT, "-"
+            meta["foreign_class"] = "punct"
+        else:
+            i = rnd.choice(inner)
+            text = text[:i] + ch + text[i:]
+            return text.encode("utf-8")
     if ch == ">" and i == a + first:
         ch = "#"
     if rnd.random() < 0.5 and text[i] != " ":
@@ -273,6 +284,8 @@ def corpus():
     mk("nonfinal_star", "ACD*EF\n")
     mk("foreign_lower", "ACDEf\n")
     mk("foreign_X", ">h\nACDXEF\n")
+    mk("tab_inside_a_line", ">h\nACD\tEF\nGHIK\n")
+    mk("nbsp_inside_a_line", "ACDEF\nGH\xa0IK\n")
     mk("eio_mid_file", body * 8, fault={"chunks": [16], "eio_at": 9, "open": None})
     mk("eio_first_read", body, fault={"chunks": None, "eio_at": 2, "open": None})
     mk("missing_file", body, fault={"chunks": None, "eio_at": None, "open": "ENOENT"})
@@ -316,10 +329,11 @@ def ref_parse(data):
     kept = []
     for line in text.split("\n"):
         for ch in line:
-            if ch != " " and ch.isspace():
-                return ("ambig", "non-space whitespace")
-            if ch in "\x1c\x1d\x1e\x1f\x85":
-                return ("ambig", "separator control character")
+            if ch in "\x0b\x0c\x1c\x1d\x1e\x1f\x85\u2028\u2029":
+                return ("ambig", "character that some line splitters treat as a line boundary")
+        if line.strip() != line.strip(" "):
+            return ("ambig", "non-space whitespace at the end of a line (line trimming may or may not remove it)")
+        # non-space whitespace strictly inside a line (TAB, NBSP, U+3000, ...) is just another foreign character
         body = line.strip(" ")
         if body == "":
             continue
